@@ -84,6 +84,16 @@ CLAIMED = {
         text='C13_no_panic, C13_setup_recovers_same_connection, C13_verify_recovers_same_connection, C13_updates_never_panic. Real server: malformed TLV8, hostile JSON (1e400, 12000-deep nesting, wrong types), short / undecryptable payloads, unknown steps / methods, composite values at five protocol states; every request must be answered (no dropped connection) and a correct handshake must succeed afterwards on the same and on a new connection.',
         design='5/C13',
         note='Symbolic (Dolev-Yao style) cryptography in the world model: forging a proof / signature / sealed message is impossible by construction of the message alphabet; INT-CTXT, EUF-CMA, SRP-6a soundness, CDH, HKDF-as-RO are assumed, not proved. net/http parsing modelled as 400-and-close. Model tied to the code by the translator (endpoint table, Authenticate shape, labels, nonces, tags) and by running the real ipTransport over TCP against an independent reference controller on the same scenarios as the extracted model. No axioms.'),
+    "C14": dict(
+        technique="Coq proofs: instance ids are exactly 1..n in construction order for every accessory shape, container ids unique and non-zero for every composition (invariant of AddAccessory); JSON mandatory members and catalog format / permission facts recompiled from the Go source; differential correspondence on random compositions of real constructors",
+        text="C14_instance_ids_sequential / _unique_nonzero (all shapes), C14_accessory_ids_unique_nonzero (all compositions with explicit and automatic ids), C14_json_mandatory_members (struct tags regenerated by the translator), C14_every_ctor_sets_format_and_perms (finite, by computation over the regenerated catalog). Compositions of up to 40 (thorough 60) accessories from every service constructor with hidden / primary / linked services are built twice; ids are read from the objects and from the generic JSON, which is checked for HAP well-formedness.",
+        design="5/C14",
+        note="Premise: services are added before the accessory is added and each accessory is added once. No axioms."),
+    "C15": dict(
+        technique="translator regenerates the whole constructor catalog and the metadata as Coq data on every run; finite statements proved by computing boolean checkers (vm_compute) lifted by soundness lemmas; run-time dump of every constructor cross-checks the translator",
+        text="C15_every_meta_char_has_ctor (type, format, permissions, unit, min / max / step, default of the right type within bounds, embedded Go type and literal types), C15_ctor_type_is_declared, C15_every_meta_service_has_ctor (required characteristics), C15_services_usable_and_distinct (base initialised, known characteristics, no duplicate types) are recompiled against Gen/CatalogGen.v and Gen/MetadataGen.v; every zero-argument constructor (169 + 54 + 11 accessories) is called under recover and compared field by field with its translated record.",
+        design="5/C15",
+        note="Finite domain: the catalog present at check time (bound stated in the theorems). Translator (go/parser) trusted but cross-checked dynamically. vm_compute used. No axioms."),
 }
 PENDING_REASON = "not yet claimed: model/theorems for this property are still being built in this development (see DESIGN.md section 10 for the order of work)"
 
